@@ -80,7 +80,7 @@ def replay(job):
         if waiting:
             probe = cur[waiting[0]]
             extra = [f'go {probe}', f'try {probe} 150', f'go {evname}']
-    replies = prog.run(SETUP + cmds + extra, timeout=90)
+    replies = prog.run(SETUP + cmds + extra, timeout=240)
     if any(r.get('cmd') in ('CRASH', 'TIMEOUT') for r in replies):
         return [('driver run', 'completes', json.dumps(replies[-1])[:300])], []
     if replies and replies[-1].get('cmd') == 'STUCK':
